@@ -201,6 +201,20 @@ pub fn gen_corpus() -> std::io::Result<()> {
         write("fz_cmd", n, l)?;
         n += 1;
     }
+    // fz_sim: any bytes decode to a script; a few hand-made starting points
+    for (i, seed) in [
+        &[0u8, 1, 0, 1, 0, 0, 1, 4, 3, 0, 4, 2, 6, 5][..],
+        &[0, 7, 2, 1, 7, 4, 1, 8, 16, 0, 0, 2, 9, 6, 4][..],
+        &[0, 3, 0, 8, 11, 0, 0, 1, 4, 9, 11, 1, 5, 2, 0, 9, 3, 10, 0],
+        &[0x80, 9, 0, 1, 0, 0, 1, 7, 1, 4, 2, 12, 1, 20, 9, 0, 8, 3],
+        &[0xc0, 2, 3, 1, 2, 64, 5, 10, 12, 3, 2, 9, 6, 4, 0, 0, 1],
+        &[0, 5, 4, 6, 0, 0, 1, 6, 8, 0, 0, 2, 6, 9, 0, 0, 3, 6, 3],
+    ]
+    .iter()
+    .enumerate()
+    {
+        write("fz_sim", i, seed)?;
+    }
     let strat = crate::cmdlab::arg_string(60);
     for i in 0..40usize {
         let mut d = vec![(i % 5) as u8];
@@ -212,4 +226,150 @@ pub fn gen_corpus() -> std::io::Result<()> {
         n += 1;
     }
     Ok(())
+}
+
+// ---------------------------------------------------------------------------------------------
+// fz_sim: bytes -> script for the session simulator -> judges of C01/C04/C05 (fault-free) or C08
+
+struct Cur<'a> {
+    d: &'a [u8],
+    i: usize,
+}
+
+impl Cur<'_> {
+    fn b(&mut self) -> u8 {
+        let v = self.d.get(self.i).copied().unwrap_or(0);
+        self.i += 1;
+        v
+    }
+    fn done(&self) -> bool {
+        self.i >= self.d.len()
+    }
+}
+
+fn decode_step(c: &mut Cur<'_>, k: &mut usize, replies: &mut Vec<(String, crate::sim::ReplySpec)>, depth: u8, faulty: bool, fault_used: &mut bool) -> crate::sim::Step {
+    use crate::sim::{Fault, ReplySpec, Req, Step};
+    let op = c.b() % 13;
+    match op {
+        0..=3 => {
+            let x = c.b();
+            let caller = x % 3;
+            let kind = (x >> 2) % 5;
+            let n = if kind == 0 || kind == 2 { 1 } else { 1 + (x >> 5) as usize % 4 };
+            let mut toks = Vec::new();
+            for i in 0..n {
+                let y = c.b();
+                let t = format!("r{k}x{i}");
+                let spec = if y % 5 == 0 {
+                    ReplySpec::Ack { code: 1 + u64::from(y % 59), message: "no".into(), partial: if y & 0x40 != 0 { vec![("p".into(), "q".into())] } else { vec![] } }
+                } else {
+                    ReplySpec::Ok {
+                        fields: (0..(y % 3)).map(|j| (["ka", "kb", "kc"][j as usize].to_string(), format!("v{y}"))).collect(),
+                        binary: if y % 7 == 0 { Some(B(vec![y; (y as usize % 40) + 1])) } else { None },
+                    }
+                };
+                replies.push((t.clone(), spec));
+                toks.push(t);
+            }
+            *k += 1;
+            let req = match kind {
+                0 => Req::Raw(toks[0].clone()),
+                1 => Req::RawList(toks),
+                2 => Req::Typed(toks[0].clone()),
+                3 => Req::TypedTuple(toks),
+                _ => Req::TypedVec(toks),
+            };
+            Step::Issue { caller, req }
+        }
+        4 | 5 => {
+            let x = c.b();
+            let n = 1 + (x % 3) as usize;
+            let names = (0..n)
+                .map(|j| {
+                    let y = x.wrapping_add(j as u8 * 37);
+                    if y % 9 == 0 {
+                        format!("zz{y}")
+                    } else {
+                        crate::props::simgen::SUBSYSTEMS[y as usize % 14].to_string()
+                    }
+                })
+                .collect();
+            Step::Change(names)
+        }
+        6 => Step::Advance([0, 1, 50, 99, 100, 101, 150, 250, 6_000, 61_000][c.b() as usize % 10]),
+        7 => Step::Hold,
+        8 => Step::Release(1 + c.b() as usize % 40),
+        9 => Step::ReleaseAll,
+        10 => Step::Cancel(c.b() % 8),
+        11 if depth == 0 => {
+            let a = decode_step(c, k, replies, 1, faulty, fault_used);
+            let b = decode_step(c, k, replies, 1, faulty, fault_used);
+            Step::Together(vec![a, b])
+        }
+        _ => {
+            if faulty && !*fault_used && depth == 0 {
+                *fault_used = true;
+                let x = c.b();
+                let y = c.b() as usize;
+                Step::Fault(match x % 6 {
+                    0 => Fault::EofAfter(0),
+                    1 => Fault::EofAfter(y),
+                    2 => Fault::ReadErrorAfter(y % 60),
+                    3 => Fault::WriteErrorAfter(y % 5),
+                    4 => Fault::Garbage(B::from(["foo bar", "ACK x", "binary: 2\nabX", "OK "][y % 4])),
+                    _ => Fault::EofAfter(y * 16),
+                })
+            } else {
+                Step::Advance(100)
+            }
+        }
+    }
+}
+
+pub fn script_from_bytes(data: &[u8]) -> (crate::sim::Script, bool) {
+    use crate::sim::{Script, SegPattern};
+    let mut c = Cur { d: data, i: 0 };
+    let ctrl = c.b();
+    let faulty = ctrl & 0x80 != 0;
+    let sched_seed = u64::from(c.b()) | (u64::from(ctrl & 0x0f) << 8);
+    let seg = match c.b() % 5 {
+        0 | 1 => SegPattern::Whole,
+        2 => SegPattern::Lines,
+        3 => SegPattern::OneByte,
+        _ => SegPattern::Chunk(2 + c.b() as usize % 30),
+    };
+    let mw = c.b();
+    let max_write = if !faulty && mw % 8 == 0 { Some(1 + (mw as usize >> 3) % 11) } else { None };
+    let mut replies = Vec::new();
+    let mut steps = Vec::new();
+    let mut k = 0;
+    let mut fault_used = false;
+    while !c.done() && steps.len() < 40 {
+        steps.push(decode_step(&mut c, &mut k, &mut replies, 0, faulty, &mut fault_used));
+    }
+    (
+        Script { sched_seed, seg, replies, steps, max_write, picture: None, broken_pipe: ctrl & 0x40 != 0, greeting: None, lazy_events: false },
+        faulty && fault_used,
+    )
+}
+
+/// C01 + C04 + C05 on fault-free scripts, C08 on scripts with one fault.
+pub fn sim_target(data: &[u8]) -> Result<(), String> {
+    use crate::props::{c08, simprops};
+    if data.len() < 5 {
+        return Ok(());
+    }
+    let (script, faulty) = script_from_bytes(data);
+    let obs = crate::sim::run(&script);
+    let fail = |id: &str, r: CaseResult| match r.outcome {
+        Outcome::Fail(e) => Err(format!("{id}: {e}")),
+        _ => Ok(()),
+    };
+    if faulty {
+        fail("C08", c08::judge(&script, &obs))
+    } else {
+        fail("C01", simprops::judge_c01(&script, &obs))?;
+        fail("C04", simprops::judge_c04(&script, &obs))?;
+        fail("C05", simprops::judge_c05(&script, &obs))
+    }
 }
